@@ -41,6 +41,7 @@ type c08Scen struct {
 	Seed int64 `json:"seed,omitempty"`
 	Big  bool  `json:"big,omitempty"`
 	WS   bool  `json:"ws,omitempty"`
+	Comp bool  `json:"comp,omitempty"` // a component instead of a client
 }
 
 func goid() string {
@@ -70,17 +71,17 @@ func c08Make(env *sessEnv, ctx context.Context, s, i int, rng *rand.Rand, big bo
 	case 0:
 		m := stanza.Message{Attrs: stanza.Attrs{Id: tag, To: "peer@localhost", Type: stanza.MessageTypeChat}, Body: body}
 		want, _ := xml.Marshal(m)
-		return c08Send{tag, "send", want, func() error { return env.client.Send(m) }}
+		return c08Send{tag, "send", want, func() error { return env.sender.Send(m) }}
 	case 1:
 		var eb bytes.Buffer
 		xml.EscapeText(&eb, []byte(body))
 		raw := "<message id='" + tag + "' to='peer@localhost'><body>" + eb.String() + "</body></message>"
-		return c08Send{tag, "raw", []byte(raw), func() error { return env.client.SendRaw(raw) }}
+		return c08Send{tag, "raw", []byte(raw), func() error { return env.sender.SendRaw(raw) }}
 	default:
 		iq, _ := stanza.NewIQ(stanza.Attrs{Type: stanza.IQTypeGet, Id: tag, To: "localhost"})
 		iq.Payload = &stanza.DiscoInfo{Node: body}
 		want, _ := xml.Marshal(iq)
-		return c08Send{tag, "iq", want, func() error { _, err := env.client.SendIQ(ctx, iq); return err }}
+		return c08Send{tag, "iq", want, func() error { _, err := env.sender.SendIQ(ctx, iq); return err }}
 	}
 }
 
@@ -114,7 +115,14 @@ func c08RunOne(w *tr.Writer, tid int, raw json.RawMessage, c *common) error {
 	if !stress {
 		g = gate
 	}
-	env, err := newSessEnv(w, tid, envOpts{SM: sc.SM, Logger: sc.Logger, Gate: g, FailWrite: sc.FailAt, Partial: sc.Partial, WS: sc.WS})
+	eo := envOpts{SM: sc.SM, Logger: sc.Logger, Gate: g, FailWrite: sc.FailAt, Partial: sc.Partial, WS: sc.WS}
+	var env *sessEnv
+	var err error
+	if sc.Comp {
+		env, err = newCompEnv(w, tid, eo)
+	} else {
+		env, err = newSessEnv(w, tid, eo)
+	}
 	if err != nil {
 		return err
 	}
@@ -246,7 +254,7 @@ func c08RunOne(w *tr.Writer, tid int, raw json.RawMessage, c *common) error {
 			}
 		}
 	}
-	if env.run.get("send.prewrite")+env.run.get("sendraw.prewrite") == 0 {
+	if !sc.Comp && env.run.get("send.prewrite")+env.run.get("sendraw.prewrite") == 0 {
 		env.teardown()
 		return fmt.Errorf("hook missing: send.prewrite never fired")
 	}
@@ -263,7 +271,7 @@ func c08RunOne(w *tr.Writer, tid int, raw json.RawMessage, c *common) error {
 	}
 	// queue snapshot
 	qtags, qids := []string{}, []int{}
-	if sc.SM && env.client.Session != nil && env.client.Session.SMState.UnAckQueue != nil {
+	if sc.SM && env.client != nil && env.client.Session != nil && env.client.Session.SMState.UnAckQueue != nil {
 		for _, e := range env.client.Session.SMState.UnAckQueue.Uslice {
 			if e == nil {
 				qtags = append(qtags, "nil")
@@ -329,8 +337,13 @@ func runC08(args []string) error {
 	for i := 0; i < *stress; i++ {
 		sc := c08Scen{SM: rng.Intn(2) == 0, Logger: rng.Intn(3) == 0, G: 2 + rng.Intn(7), M: 5 + rng.Intn(45), Seed: rng.Int63n(1 << 30), Big: rng.Intn(3) == 0}
 		if rng.Intn(3) == 0 {
-			sc.WS = true // write faults are injected on the TCP transport only
-		} else if rng.Intn(5) == 0 {
+			sc.WS = true
+		}
+		if i%4 == 3 {
+			sc.Comp, sc.WS, sc.SM, sc.Logger = true, false, false, false
+			sc.Big = true
+		}
+		if rng.Intn(4) == 0 {
 			sc.FailAt = 1 + rng.Intn(sc.G*sc.M)
 			sc.Partial = rng.Intn(2) == 0
 		}
